@@ -470,6 +470,7 @@ func c07Lane_(r *core.Run, agentBin string, md *fakes.Metadata, li int, ln c07La
 			inj++
 			var up *fakes.Upload
 			var got bool
+			refusedJudged := false
 			switch f.Point {
 			case "list":
 				for k := 0; k < 1+rep; k++ { // consecutive failures in later repetitions
@@ -502,7 +503,7 @@ func c07Lane_(r *core.Run, agentBin string, md *fakes.Metadata, li int, ln c07La
 					port := backend.Srv.Port()
 					current.Store("backend/refused(listener-down)")
 					// healthy lanes will fail while the only backend is down: pause them by draining via a dedicated agent instead
-					up, got = c07Refused(r, agentBin, md, ln, li, inj)
+					up, got, refusedJudged = c07Refused(r, agentBin, md, ln, li, inj)
 					_ = port
 				} else {
 					var w rawhttp.Builder
@@ -665,9 +666,9 @@ func c07Lane_(r *core.Run, agentBin string, md *fakes.Metadata, li int, ln c07La
 				}
 				statusSeen[label][up.Resp.Status]++
 			}
-			if f.Point == "backend" && f.Kind == "refused" {
+			if f.Point == "backend" && f.Kind == "refused" && refusedJudged {
 				if !got || up == nil || up.Resp == nil {
-					r.Violate("C07:unreachable-backend:no-response", fmt.Sprintf("config %s: request to an unreachable backend produced no uploaded response within 10s", ln.name), nil, nil)
+					r.Violate("C07:unreachable-backend:no-response", fmt.Sprintf("config %s: request to an unreachable backend produced no uploaded response within 20s of being listed", ln.name), nil, nil)
 				} else if up.Resp.Status != 502 {
 					r.Violate("C07:unreachable-backend:not-502", fmt.Sprintf("config %s: request to an unreachable backend was answered %d, not 502", ln.name, up.Resp.Status), nil, nil)
 				}
@@ -716,11 +717,11 @@ func c07Lane_(r *core.Run, agentBin string, md *fakes.Metadata, li int, ln c07La
 
 // c07Refused starts a second agent of the same configuration whose backend
 // address is a closed port and issues one request through it.
-func c07Refused(r *core.Run, agentBin string, md *fakes.Metadata, ln c07Lane, li, inj int) (*fakes.Upload, bool) {
+func c07Refused(r *core.Run, agentBin string, md *fakes.Metadata, ln c07Lane, li, inj int) (up *fakes.Upload, ok bool, judged bool) {
 	px, err := fakes.NewProxy()
 	if err != nil {
 		r.Broken(err.Error())
-		return nil, false
+		return nil, false, false
 	}
 	defer px.Close()
 	px.ListWait = 30 * time.Millisecond
@@ -728,12 +729,20 @@ func c07Refused(r *core.Run, agentBin string, md *fakes.Metadata, ln c07Lane, li
 	agent, err := startAgent(r, agentBin, fmt.Sprintf("agent7r-%s-%d", ln.name, inj), md, px.URL(), closed, "b7r", ln.cfg...)
 	if err != nil {
 		r.Broken(err.Error())
-		return nil, false
+		return nil, false, false
 	}
 	defer agent.Kill()
+	// the progress bound below is for the request, not for the start-up of a fresh agent process on a busy machine
+	for d := time.Now().Add(60 * time.Second); time.Now().Before(d) && px.Lists() == 0 && agent.Alive(); {
+		time.Sleep(10 * time.Millisecond)
+	}
+	if px.Lists() == 0 {
+		r.Inconclusive("C07 refused-backend scenario: the second agent made no pending-list call within 60 s of its start")
+		return nil, false, false
+	}
 	id := fmt.Sprintf("refused-%d-%d", li, inj)
 	px.Enqueue(id, tokRequest("GET", id, 10, 0, "c07.example", nil, nil), "")
-	up, ok := px.Wait(id, 15*time.Second)
+	up, ok = px.Wait(id, 20*time.Second)
 	// the agent must still be alive and still polling afterwards
 	n := px.Lists()
 	// (a progress bound, not a deadline: a polling agent lists again within milliseconds; 150 ms was once used
@@ -749,7 +758,7 @@ func c07Refused(r *core.Run, agentBin string, md *fakes.Metadata, ln c07Lane, li
 	for _, ex := range core.CrashMarkers(agent.LogPath) {
 		r.Violate(core.CrashSignature(ex), "agent crashed: "+ex, nil, nil)
 	}
-	return up, ok
+	return up, ok, true
 }
 
 // c07H2Handler is the h2c backend of the --force-http2 lane: token responses
